@@ -372,7 +372,6 @@ func c15UpperBoundTruncated(c *Ctx) {
 	}
 }
 
-
 // c15PebbleBatch: the Pebble-backed batch is one unit of atomicity with its own read view. (commit-only-in-write) the
 // underlying pebble batch is committed/applied only by the batch's Write method — a Put or Delete that commits on its own
 // ("spill" when the batch grows, seeded change C05-J) splits what the callers treat as one atomic unit; (batch-view) the
